@@ -167,6 +167,46 @@ pub fn gen_c04(asm: &Asm, mach: &mut Mach, rng: &mut Rng, sh: &mut Shards, thoro
             }
         }
     }
+    // the lattice of the TLC model (MC_Machine C04Addressing) on the real code: every shape x override x
+    // base/index from {0,1,7FFF,8000,FFFE,FFFF} x segment value x displacement, rotating through four operations
+    let segvals: [u16; 6] = [0, 1, 0x0FFF, 0x1000, 0xF000, 0xFFFF];
+    let mut kk: u64 = 0;
+    for s in &shapes {
+        for seg in SEGS {
+            for bv in L6 {
+                for iv in L6 {
+                    for sv in segvals {
+                        for disp in [0i32, 1, -1, 32767, -32768] {
+                            kk += 1;
+                            if !thorough && kk % 11 != 0 {
+                                continue;
+                            }
+                            let m = match mem_of(s, seg, rng) {
+                                Opnd::Mem { seg, base, index, has_disp, .. } if has_disp => Opnd::Mem { seg, base, index, disp: if base.is_empty() && index.is_empty() { disp.rem_euclid(65536) } else { disp }, has_disp },
+                                o => o,
+                            };
+                            let mut regs = random_regs(rng);
+                            regs.bx = bv;
+                            regs.bp = bv;
+                            regs.si = iv;
+                            regs.di = iv;
+                            regs.ds = sv;
+                            regs.ss = sv.wrapping_add(7);
+                            regs.es = sv.wrapping_add(11);
+                            regs.cs = sv.wrapping_add(13);
+                            let ins = match kk % 4 {
+                                0 => Ins::Mov { w: 16, dst: Opnd::Reg16("dx"), src: m },
+                                1 => Ins::Mov { w: 8, dst: m, src: Opnd::Reg8("ch") },
+                                2 => Ins::UnArith { op: "inc", w: 16, dst: m },
+                                _ => Ins::Lea { dst: Opnd::Reg16("ax"), src: m },
+                            };
+                            b.one("c04:model-lattice", &ins, &Spelling::default(), &regs, 0x0002, &[]);
+                        }
+                    }
+                }
+            }
+        }
+    }
     // data labels (DS-relative, whatever DS currently is)
     for _ in 0..(if thorough { 600 } else { 60 }) {
         let l = rand_label(rng);
